@@ -264,6 +264,10 @@ func vNameStartByte(c byte) bool {
 //@   loop 2 decreases maxPos - tk.pos
 //@   loop 3 invariant old(tk.pos) <= startPos && startPos <= tk.pos && tk.pos <= maxPos && maxPos <= length && length == len(tk.src) && maxPos <= old(tk.pos) + 13
 //@   loop 3 decreases maxPos - tk.pos
+// CSS Syntax 3 (unicode-range): after the start, "if the next 2 input code points are U+002D (-) followed by a hex
+// digit", the end of the range is consumed - also when that hex digit is the LAST byte of the input; the range
+// ends where it starts only when there is no such pair (and no question mark)
+//@   assert after endS#3: questionMarks == 0 && !(tk.pos + 1 < len(tk.src) && tk.src[tk.pos] == '-' && strings.ContainsRune(charUnicodeRange, rune(tk.src[tk.pos+1])))
 
 //@ func (*tokenizer).consumeQuotedString
 //@   props C06 C07 C01
